@@ -302,7 +302,7 @@ func c18prop(r *simkit.Run) {
 		expr:        e.render(false),
 		fallback:    drawDuration(rt, "fallback"),
 		recovery:    drawDuration(rt, "recovery"),
-		checkPeriod: drawDuration(rt, "check-period"),
+		checkPeriod: drawCheckPeriod(rt),
 		fine:        rapid.IntRange(0, 3).Draw(rt, "fine") == 0,
 		sideEffects: true,
 	}
